@@ -61,6 +61,10 @@ type Fixed struct {
 	Name     string
 	Config   *fedlab.Config
 	Universe func(r *common.Rand) *fedlab.Universe
+	// fixture families (families.go) only; the zero values draw nothing from the history's random stream
+	IHops      bool                           // operations select interface-declared composite fields bare AND under implementers
+	Directed   func(r *common.Rand) *Template // the first template of every history
+	GateOrders [][]string                     // completion orders (subgraph priority lists) the multi-fetch x scheduler runs are gated with
 }
 
 // ---------------------------------------------------------------- "arp"
@@ -435,6 +439,11 @@ func FixedByName(n string) *Fixed {
 	var idx int
 	if k, _ := fmt.Sscanf(n, "gen-%d-%d", &seed, &idx); k == 2 {
 		return Generated(seed, idx)
+	}
+	for _, fam := range Families {
+		if k, _ := fmt.Sscanf(n, fam+"-%d-%d", &seed, &idx); k == 2 {
+			return Family(fam, seed, idx)
+		}
 	}
 	return nil
 }
